@@ -368,10 +368,10 @@ Proof.
         -- rewrite nofwd_app, P, all_decls_remove_unresolvable.
            rewrite nofwd_id.
            ++ rewrite (del_node_perm g nd) by (destruct Hwf; assumption). apply Permutation_app_tail. apply sort_by_pos_perm.
-           ++ unfold no_fwd_in in Hnf. rewrite Forall_forall in *. intros d Hd. apply Hnf. apply sort_by_pos_In in Hd.
+           ++ unfold no_fwd_in in Hnf. rewrite Forall_forall in *. intros d Hd. apply Hnf. apply (proj1 (sort_by_pos_In _ _)) in Hd.
               apply all_decls_In. eauto.
         -- apply Forall_app. split.
-           ++ rewrite Forall_forall. intros d Hd Hf. apply sort_by_pos_In in Hd.
+           ++ rewrite Forall_forall. intros d Hd Hf. apply (proj1 (sort_by_pos_In _ _)) in Hd.
               unfold no_fwd_in in Hnf. rewrite Forall_forall in Hnf. rewrite Hnf in Hf; [discriminate|]. apply all_decls_In. eauto.
            ++ rewrite all_decls_remove_unresolvable in F. eapply Forall_impl; [|exact F]. simpl. intros e He Hf.
               destruct (He Hf) as [t [H1 H2]]. exists t. split; auto.
@@ -383,9 +383,9 @@ Proof.
       apply IH in H as [rest [-> [P F]]].
       * exists (sort_by_pos buf ++ rest). split; [rewrite app_assoc; reflexivity|]. split.
         -- rewrite nofwd_app, P, all_decls_remove_unresolvable, Had. rewrite nofwd_none; [reflexivity|].
-           rewrite Forall_forall in *. intros e He. apply sort_by_pos_In in He. destruct (Hbuf e He) as [t [_ [_ ->]]]. reflexivity.
+           rewrite Forall_forall in *. intros e He. apply (proj1 (sort_by_pos_In _ _)) in He. destruct (Hbuf e He) as [t [_ [_ ->]]]. reflexivity.
         -- apply Forall_app. split.
-           ++ rewrite Forall_forall in *. intros e He _. apply sort_by_pos_In in He. apply Hbuf. exact He.
+           ++ rewrite Forall_forall in *. intros e He _. apply (proj1 (sort_by_pos_In _ _)) in He. apply Hbuf. exact He.
            ++ rewrite all_decls_remove_unresolvable, Had in F. exact F.
       * apply gwf_remove_unresolvable, shape_gwf; [apply tf_map_shape|exact Hwf].
       * rewrite all_decls_remove_unresolvable, Had. exact Hnf.
@@ -413,4 +413,82 @@ Proof.
     eapply Permutation_in; [apply build_perm|exact H1].
   - apply gwf_remove_unresolvable, build_gwf.
   - rewrite all_decls_remove_unresolvable. exact Hnf.
+Qed.
+
+(* ---------- generic induction over the Sort loop ---------- *)
+Definition Base (D : list decl) (g : graph) (acc : list decl) : Prop :=
+  gwf g /\ no_fwd_in (all_decls g) /\ Permutation (nofwd acc ++ all_decls g) D /\
+  Forall (fun e => is_fwd e = true -> fwd_of_type D e) acc.
+
+Lemma Base_ru D g acc : Base D g acc -> Base D (remove_unresolvable g) acc.
+Proof.
+  intros [A [B [C E]]]. split; [apply gwf_remove_unresolvable; exact A|].
+  rewrite all_decls_remove_unresolvable. auto.
+Qed.
+
+Lemma Base_del D g acc nd : Base D g acc -> In nd g ->
+  Base D (del_node g (gname nd)) (acc ++ sort_by_pos (gdecls nd)).
+Proof.
+  intros [A [B [C E]]] Hin.
+  assert (Hnf : no_fwd_in (gdecls nd)).
+  { eapply no_fwd_sub; [|exact B]. intros d Hd. apply all_decls_In. eauto. }
+  split; [apply gwf_del_node; exact A|]. split; [|split].
+  - eapply no_fwd_sub; [|exact B]. intros d. apply all_decls_del_sub.
+  - rewrite nofwd_app, nofwd_id.
+    + rewrite <- C, <- app_assoc. apply Permutation_app_head.
+      rewrite (del_node_perm g nd) by (destruct A; assumption). apply Permutation_app_tail. apply sort_by_pos_perm.
+    + eapply no_fwd_sub; [|exact Hnf]. intros d Hd. apply sort_by_pos_In. exact Hd.
+  - apply Forall_app. split; [exact E|]. unfold no_fwd_in in Hnf. rewrite Forall_forall in *. intros d Hd Hf.
+    apply (proj1 (sort_by_pos_In _ _)) in Hd. rewrite (Hnf d Hd) in Hf. discriminate.
+Qed.
+
+Lemma Base_tf D g acc buf : Base D g acc -> Forall (fwd_of_type (all_decls g)) buf ->
+  Base D (map (tf_map (names_of buf)) g) (acc ++ sort_by_pos buf).
+Proof.
+  intros [A [B [C E]]] Hb.
+  assert (Had : all_decls (map (tf_map (names_of buf)) g) = all_decls g) by (apply shape_all_decls, tf_map_shape).
+  split; [apply shape_gwf; [apply tf_map_shape|exact A]|]. rewrite Had. split; [exact B|]. split.
+  - rewrite nofwd_app. rewrite (nofwd_none (sort_by_pos buf)); [rewrite app_nil_r; exact C|].
+    rewrite Forall_forall in *. intros e He. apply (proj1 (sort_by_pos_In _ _)) in He. destruct (Hb e He) as [t [_ [_ ->]]]. reflexivity.
+  - apply Forall_app. split; [exact E|]. rewrite Forall_forall in *. intros e He _.
+    apply (proj1 (sort_by_pos_In _ _)) in He. destruct (Hb e He) as [t [H1 H2]]. exists t. split; [|exact H2].
+    eapply Permutation_in; [exact C|]. apply in_or_app. right. exact H1.
+Qed.
+
+Section LoopInv.
+  Variable D : list decl.
+  Variable I : graph -> list decl -> Prop.
+  Hypothesis step_del : forall g acc nd,
+    Base D g acc -> I g acc -> In nd g -> gedges nd = [] -> remove_nodes_no_deps g = Some (nd, del_node g (gname nd)) ->
+    Base D (remove_unresolvable (del_node g (gname nd))) (acc ++ sort_by_pos (gdecls nd)) ->
+    I (remove_unresolvable (del_node g (gname nd))) (acc ++ sort_by_pos (gdecls nd)).
+  Hypothesis step_tf : forall g acc buf,
+    Base D g acc -> I g acc -> remove_nodes_no_deps g = None -> Forall (fwd_of_type (all_decls g)) buf ->
+    Base D (remove_unresolvable (map (tf_map (names_of buf)) g)) (acc ++ sort_by_pos buf) ->
+    I (remove_unresolvable (map (tf_map (names_of buf)) g)) (acc ++ sort_by_pos buf).
+
+  Lemma sort_loop_inv fuel : forall g acc out,
+    Base D g acc -> I g acc -> sort_loop fuel g acc = Ok out -> Base D [] out /\ I [] out.
+  Proof.
+    induction fuel as [|f IH]; intros g acc out HB HI H.
+    - destruct g; simpl in H; [|discriminate]. inversion H; subst. auto.
+    - destruct g as [|x g0]; [simpl in H; inversion H; subst; auto|].
+      remember (x :: g0) as g. simpl in H. rewrite Heqg in H at 1.
+      destruct (remove_nodes_no_deps g) as [[nd g']|] eqn:E.
+      + destruct (rnnd_spec _ _ _ E) as [Hin [He ->]].
+        assert (HB' := Base_ru _ _ _ (Base_del _ _ _ _ HB Hin)).
+        apply IH in H; auto.
+      + destruct (remove_type_fwd g) as [| |buf g'] eqn:E2; try discriminate.
+        apply remove_type_fwd_spec in E2 as [-> [_ Hbuf]].
+        assert (HB' := Base_ru _ _ _ (Base_tf _ _ _ _ HB Hbuf)).
+        apply IH in H; auto.
+  Qed.
+End LoopInv.
+
+Lemma Base_init ds : Forall (fun d => dkind d <> KTypeFwd) ds -> Base (resolve ds) (remove_unresolvable (build ds)) [].
+Proof.
+  intros Hk. apply Base_ru. split; [apply build_gwf|]. split; [|split].
+  - eapply no_fwd_sub; [|apply resolve_no_fwd; exact Hk]. intros d. apply Permutation_in. apply build_perm.
+  - simpl. apply build_perm.
+  - constructor.
 Qed.
